@@ -58,7 +58,11 @@ func expand(seed uint64, n int) []byte {
 
 func clone(b []byte) []byte { return append([]byte(nil), b...) }
 
-func pct(t *rapid.T, label string, p int) bool { return rapid.IntRange(0, 99).Draw(t, label) < p }
+// roll returns a number in [0,100) that is (nearly) uniform: rapid's integer generators favour small
+// and boundary values, so percentages are taken from a hash of a drawn 64-bit value instead.
+func roll(t *rapid.T, label string) int { return int(mix(rapid.Uint64().Draw(t, label)) % 100) }
+
+func pct(t *rapid.T, label string, p int) bool { return roll(t, label) < p }
 
 // src abstracts where the generic message filler takes its decisions from: rapid draws (random
 // policies) or a counter (the fully populated template of the enumerated matrices).
@@ -725,7 +729,7 @@ func genSevCase(t *rapid.T) *sevCase {
 	} else {
 		weights = []int{24, 20, 20, 9, 7, 7, 7, 6}
 	}
-	r := rapid.IntRange(0, 99).Draw(t, "bundleclass")
+	r := roll(t, "bundleclass")
 	for i, w := range weights {
 		if r < w {
 			c.BundleClass = bundleClasses[i]
@@ -757,7 +761,7 @@ func genSevCase(t *rapid.T) *sevCase {
 
 	// options
 	c.Overwrite = pct(t, "overwrite", 35)
-	lr := rapid.IntRange(0, 99).Draw(t, "launchkind")
+	lr := roll(t, "launchkind")
 	switch {
 	case len(keys) > 0 && (lr < 80 || harmonize):
 		c.Launch = keys[rapid.IntRange(0, len(keys)-1).Draw(t, "launchidx")]
@@ -1184,7 +1188,7 @@ func genTdxCase(t *rapid.T) *tdxCase {
 		golden.Tdx = nil
 	}
 	// RAM
-	rr := rapid.IntRange(0, 99).Draw(t, "ramkind")
+	rr := roll(t, "ramkind")
 	switch {
 	case rr < 20 || (nrows == 0 && rr < 92):
 		c.RAMGiB = 0
@@ -1199,7 +1203,20 @@ func genTdxCase(t *rapid.T) *tdxCase {
 	} else {
 		base := &tcpb.Policy{}
 		tdxDom.fill(rsrc{t}, base.ProtoReflect(), "")
+		if (base.TdQuoteBodyPolicy == nil || len(base.TdQuoteBodyPolicy.AnyMrTd) == 0) && pct(t, "forceallow", 35) {
+			// bias towards the guarded field being set (a bare quote body with only an allow-list is what
+			// a previous derivation leaves behind)
+			if base.TdQuoteBodyPolicy == nil {
+				base.TdQuoteBodyPolicy = &tcpb.TDQuoteBodyPolicy{}
+			}
+			for i, n := 0, rapid.IntRange(1, 4).Draw(t, "forcelen"); i < n; i++ {
+				base.TdQuoteBodyPolicy.AnyMrTd = append(base.TdQuoteBodyPolicy.AnyMrTd, expand(rapid.Uint64().Draw(t, "forcemrtd"), 48))
+			}
+		}
 		body := base.TdQuoteBodyPolicy
+		if body != nil && len(body.AnyMrTd) > 0 {
+			c.Overwrite = pct(t, "overwrite|allowlist", 65)
+		}
 		if body != nil && len(body.AnyMrTd) > 0 && rapid.Bool().Draw(t, "eq:allow") {
 			// base allow-list already equal to what the endorsement would give
 			body.AnyMrTd = nil
@@ -1382,8 +1399,8 @@ func TestAliasDetectorSelfCheck(t *testing.T) {
 		base := fullTdxBase()
 		snap := proto.Clone(base)
 		r := m.make(base)
-		if !proto.Equal(base, snap) || !proto.Equal(r, snap) {
-			t.Fatalf("harness: %s: construction changed content", m.name)
+		if !proto.Equal(base, snap) {
+			t.Fatalf("harness: %s: construction changed the base", m.name)
 		}
 		scramble(r.ProtoReflect())
 		if proto.Equal(base, snap) {
